@@ -301,7 +301,7 @@ def main(chk: Check):
     pooled = [r for r in v["records"] if r["mode"] != "serial"]
     serial_fail = {(recs[i]["opt"], cl) for i, cl in v["bad"] if recs[i]["mode"] == "serial"}
     chk.traces += len(pooled)
-    chk.states += sum(len(r["snaps"]) + 2 for r in pooled)
+    chk.states += sum(r.get("n_snaps", 0) + 2 for r in pooled)
     for i, cl in v["bad"]:
         r = recs[i]
         if r["mode"] == "serial" or cl.split(".")[0] not in ("C01", "C02", "C03", "C10"):
